@@ -30,14 +30,20 @@ import (
 type target struct {
 	file      string // relative to <repo>
 	typeName  string // the Go type whose methods are analysed
-	lockField string // guard: field of typeName, must be sync.RWMutex or *sync.RWMutex
-	loc       string // guarded location: field path relative to the receiver
+	lockCanon string // name of the guard in the GENERATED skeleton (a role name, not the Go field name)
+	locCanon  string // name of the guarded location in the generated skeleton
 	defName   string // name of the Coq definition
+	// filled in by infer(): the Go names, found BY TYPE so that renaming private fields changes nothing
+	lockField string // the one field of typeName of type (*)sync.RWMutex
+	loc       string // the one slice/map reachable from typeName: "f" or "f.g" (f a pointer to a file-local struct)
 }
 
+// The guard is the only sync.RWMutex field of the type; the guarded location is the only slice or map that
+// is a field of the type or of a file-local struct one of its fields points to.  The names printed in the skeleton
+// are the role names below, whatever the fields are called in the source.
 var targets = []target{
-	{"storage/safeMap.go", "SafeMap", "mux", "m", "safemap_skeleton"},
-	{"storage/genericStack.go", "GenericStack", "mux", "stack.entries", "gstack_skeleton"},
+	{file: "storage/safeMap.go", typeName: "SafeMap", lockCanon: "mux", locCanon: "m", defName: "safemap_skeleton"},
+	{file: "storage/genericStack.go", typeName: "GenericStack", lockCanon: "mux", locCanon: "stack.entries", defName: "gstack_skeleton"},
 }
 
 const maxDepth = 8
@@ -49,6 +55,24 @@ var heapContract = map[string][]string{
 	"Init":   {"Len", "Less", "Swap"},
 	"Fix":    {"Len", "Less", "Swap"},
 	"Remove": {"Len", "Less", "Swap", "Pop"},
+}
+
+// Standard-library functions whose effect on a map/slice ARGUMENT is known (package path -> function):
+//   stdReaders   read the argument, the result does not share its storage
+//   stdIterators read the argument LAZILY: the result (an iterator) is treated as an alias of the argument, so it
+//                must be consumed where the lock is still held and must not escape
+//   stdConsumers consume an iterator given at the argument position stored in the table
+var stdReaders = map[string]map[string]bool{
+	"maps":   {"Clone": true, "Equal": true, "EqualFunc": true},
+	"slices": {"Clone": true, "Contains": true, "ContainsFunc": true, "Index": true, "IndexFunc": true, "Equal": true, "Max": true, "Min": true},
+}
+var stdIterators = map[string]map[string]bool{
+	"maps":   {"Keys": true, "Values": true, "All": true},
+	"slices": {"Values": true, "All": true, "Backward": true},
+}
+var stdConsumers = map[string]map[string]int{
+	"slices": {"AppendSeq": 1, "Collect": 0, "Sorted": 0, "SortedFunc": 0},
+	"maps":   {"Collect": 0},
 }
 
 var lockOps = map[string]bool{"Lock": true, "Unlock": true, "RLock": true, "RUnlock": true}
@@ -180,6 +204,70 @@ func structField(st *ast.StructType, name string) ast.Expr {
 	return nil
 }
 
+// syncKind: "RWMutex" / "Mutex" for a field type (*)sync.RWMutex / (*)sync.Mutex, "" otherwise
+func (fc *fileCtx) syncKind(ft ast.Expr) string {
+	if se, ok := ft.(*ast.StarExpr); ok {
+		ft = se.X
+	}
+	sel, ok := ft.(*ast.SelectorExpr)
+	if !ok {
+		return ""
+	}
+	pk, ok := sel.X.(*ast.Ident)
+	if !ok || fc.imports[pk.Name] != "sync" || (sel.Sel.Name != "RWMutex" && sel.Sel.Name != "Mutex") {
+		return ""
+	}
+	return sel.Sel.Name
+}
+
+func isContainerType(ft ast.Expr) bool {
+	switch ft.(type) {
+	case *ast.ArrayType, *ast.MapType:
+		return true
+	}
+	return false
+}
+
+// infer finds the guard and the guarded location of a deep-mode target by TYPE
+func (fc *fileCtx) infer(t *target) error {
+	st := fc.structs[t.typeName]
+	if st == nil {
+		return fmt.Errorf("struct type %s not declared", t.typeName)
+	}
+	var locks, locs []string
+	for _, f := range st.Fields.List {
+		for _, n := range f.Names {
+			switch {
+			case fc.syncKind(f.Type) == "RWMutex":
+				locks = append(locks, n.Name)
+			case fc.syncKind(f.Type) != "":
+				// a plain Mutex: not a guard the deep mode understands
+			case isContainerType(f.Type):
+				locs = append(locs, n.Name)
+			default:
+				base, _ := baseTypeName(f.Type)
+				if inner := fc.structs[base]; inner != nil && base != t.typeName {
+					for _, g := range inner.Fields.List {
+						for _, gn := range g.Names {
+							if isContainerType(g.Type) {
+								locs = append(locs, n.Name+"."+gn.Name)
+							}
+						}
+					}
+				}
+			}
+		}
+	}
+	if len(locks) != 1 {
+		return fmt.Errorf("%s has %d fields of type sync.RWMutex (exactly one guard expected)", t.typeName, len(locks))
+	}
+	if len(locs) != 1 {
+		return fmt.Errorf("%s reaches %d slices/maps %v (exactly one guarded location expected)", t.typeName, len(locs), locs)
+	}
+	t.lockField, t.loc = locks[0], locs[0]
+	return nil
+}
+
 // validate checks that the target type, its guard and its guarded path are declared the way the
 // target table says.  If not, nothing about the file can be trusted.
 func (fc *fileCtx) validate(t target) error {
@@ -291,6 +379,7 @@ type an struct {
 	loops  []lockState // state at entry of the enclosing loops (for continue)
 	breaks []lockState // state at entry of the enclosing loops/switches (for break)
 	labels map[string]lockState
+	reached map[*ast.FuncDecl]bool // methods whose body was analysed in place (spliced) somewhere
 }
 
 func (a *an) fail(pos token.Pos, format string, args ...interface{}) {
@@ -383,7 +472,7 @@ func (a *an) access(wr bool) {
 		a.cur = &section{held: a.heldList()}
 		a.secs = append(a.secs, a.cur)
 	}
-	x := access{a.t.loc, wr}
+	x := access{a.t.locCanon, wr}
 	for _, y := range a.cur.accs {
 		if x == y {
 			return
@@ -665,8 +754,28 @@ func (a *an) call(c *ast.CallExpr) val {
 					}
 				}
 			}
-			a.useArgs(c.Args)
-			return val{}
+			res := val{}
+			for i, arg := range c.Args {
+				v := a.expr(arg)
+				if !v.tracked || !a.sensitive(v.path) {
+					continue
+				}
+				idx, isCons := stdConsumers[pkg][f.Sel.Name]
+				switch {
+				case v.path != a.t.loc:
+					a.fail(arg.Pos(), "unrecognised use of tracked path %q", v.path)
+				case stdReaders[pkg][f.Sel.Name]:
+					a.access(false)
+				case stdIterators[pkg][f.Sel.Name]:
+					a.access(false)
+					res = val{true, a.t.loc} // lazy: the iterator still refers to the guarded location
+				case isCons && idx == i:
+					a.access(false)
+				default:
+					a.fail(arg.Pos(), "guarded location passed to %s.%s, whose effect on it is not known", pkg, f.Sel.Name)
+				}
+			}
+			return res
 		}
 		if p, ok := a.pathOf(f.X); ok {
 			if p == a.t.lockField {
@@ -799,6 +908,9 @@ func (a *an) splice(fd *ast.FuncDecl, p string, pos token.Pos) {
 	a.fr = &frame{fd: fd}
 	a.loops, a.breaks, a.labels = nil, nil, map[string]lockState{}
 	a.active[fd] = true
+	if a.reached != nil {
+		a.reached[fd] = true
+	}
 	a.depth++
 	if len(recv.Names) == 1 && recv.Names[0].Name != "_" {
 		a.bind(recv.Names[0], p)
@@ -1196,7 +1308,7 @@ func (a *an) assign(lhs, rhs []ast.Expr, tok token.Token, pos token.Pos) {
 // driver
 // ---------------------------------------------------------------------------------------------
 
-func analyseEntry(fc *fileCtx, t target, fd *ast.FuncDecl, recv *ast.Ident) (e entry) {
+func analyseEntry(fc *fileCtx, t target, fd *ast.FuncDecl, recv *ast.Ident, reached map[*ast.FuncDecl]bool) (e entry) {
 	e.name = fd.Name.Name
 	defer func() {
 		if r := recover(); r != nil {
@@ -1209,7 +1321,7 @@ func analyseEntry(fc *fileCtx, t target, fd *ast.FuncDecl, recv *ast.Ident) (e e
 		}
 	}()
 	a := &an{fc: fc, t: t, env: map[types.Object]string{}, active: map[*ast.FuncDecl]bool{fd: true},
-		labels: map[string]lockState{}}
+		labels: map[string]lockState{}, reached: reached}
 	a.fr = &frame{fd: fd}
 	if fd.Body == nil {
 		a.fail(fd.Pos(), "no body")
@@ -1227,20 +1339,27 @@ func analyseEntry(fc *fileCtx, t target, fd *ast.FuncDecl, recv *ast.Ident) (e e
 	return e
 }
 
-func analyseTarget(fc *fileCtx, t target) []entry {
-	verr := fc.validate(t)
-	var out []entry
+// cand: a function of the file that operates on the target type (method, or function taking it first)
+type cand struct {
+	fd   *ast.FuncDecl
+	recv *ast.Ident
+	bad  string // reason why it cannot be analysed at all
+}
+
+// discover lists the methods of typeName and the functions that take it, and separately the other top-level
+// functions of the file (constructors: what they start with `go` outlives them)
+func discover(fc *fileCtx, typeName string) (cands []cand, others []*ast.FuncDecl) {
 	for _, d := range fc.file.Decls {
 		fd, ok := d.(*ast.FuncDecl)
 		if !ok {
 			continue
 		}
 		var recv *ast.Ident
-		bad := "" // reason why this function cannot be analysed at all
+		bad := ""
 		params := fd.Type.Params.List
 		if fd.Recv != nil && len(fd.Recv.List) == 1 {
 			base, ptr := baseTypeName(fd.Recv.List[0].Type)
-			if base == t.typeName {
+			if base == typeName {
 				if !ptr {
 					bad = "value receiver (copies the struct)"
 				}
@@ -1251,7 +1370,7 @@ func analyseTarget(fc *fileCtx, t target) []entry {
 				// method of another type: only relevant if it is handed a value of the target type
 				mentions := false
 				for _, p := range params {
-					mentions = mentions || mentionsType(p.Type, t.typeName)
+					mentions = mentions || mentionsType(p.Type, typeName)
 				}
 				if !mentions {
 					continue
@@ -1261,38 +1380,109 @@ func analyseTarget(fc *fileCtx, t target) []entry {
 		} else {
 			first, mentions := false, false
 			for i, p := range params {
-				if mentionsType(p.Type, t.typeName) {
+				if mentionsType(p.Type, typeName) {
 					mentions = true
 					base, ptr := baseTypeName(p.Type)
-					if i == 0 && len(p.Names) == 1 && base == t.typeName && ptr {
+					if i == 0 && len(p.Names) == 1 && base == typeName && ptr {
 						first = true
 						recv = p.Names[0]
 					}
 				}
 			}
 			if !mentions {
-				continue // constructors and unrelated functions
+				others = append(others, fd) // constructors and unrelated functions
+				continue
 			}
 			if !first {
 				bad = "takes the target type, but not as a single pointer in first position"
+			} else {
+				params = params[1:]
 			}
-			params = params[1:]
 		}
 		if bad == "" {
 			for _, p := range params {
-				if mentionsType(p.Type, t.typeName) {
+				if mentionsType(p.Type, typeName) {
 					bad = "takes a second value of the target type"
 				}
 			}
 		}
-		switch {
-		case verr != nil:
-			out = append(out, entry{name: fd.Name.Name, unknown: true, reason: verr.Error()})
-		case bad != "":
-			out = append(out, entry{name: fd.Name.Name, unknown: true,
-				reason: fmt.Sprintf("%s: %s", fc.fset.Position(fd.Pos()), bad)})
-		default:
-			out = append(out, analyseEntry(fc, t, fd, recv))
+		cands = append(cands, cand{fd, recv, bad})
+	}
+	return
+}
+
+// startsGoroutineOn: does the function start a goroutine that mentions a value of the target type?
+func startsGoroutineOn(fc *fileCtx, fd *ast.FuncDecl, typeName string) bool {
+	found := false
+	if fd.Body == nil {
+		return false
+	}
+	ast.Inspect(fd.Body, func(n ast.Node) bool {
+		if g, ok := n.(*ast.GoStmt); ok {
+			ast.Inspect(g, func(m ast.Node) bool {
+				if id, ok := m.(*ast.Ident); ok && isTargetValue(fc, id, typeName) {
+					found = true
+				}
+				return !found
+			})
+		}
+		return !found
+	})
+	return found
+}
+
+// isTargetValue: the identifier is a variable of type (pointer to) typeName
+func isTargetValue(fc *fileCtx, id *ast.Ident, typeName string) bool {
+	o := fc.info.Uses[id]
+	if o == nil {
+		o = fc.info.Defs[id]
+	}
+	v, ok := o.(*types.Var)
+	if !ok || v.IsField() {
+		return false
+	}
+	t := types.Unalias(v.Type())
+	if p, ok := t.(*types.Pointer); ok {
+		t = types.Unalias(p.Elem())
+	}
+	n, ok := t.(*types.Named)
+	return ok && n.Obj() != nil && n.Obj().Name() == typeName
+}
+
+// The skeleton has one entry per EXPORTED method/function (public names are API and stable); unexported methods
+// are analysed in place where they are called, so extracting or renaming a private helper does not change the
+// skeleton.  An unexported method that no analysed entry reaches still gets an entry of its own (it may be called
+// from another file of the package).
+func analyseTarget(fc *fileCtx, t target) []entry {
+	verr := fc.infer(&t)
+	if verr == nil {
+		verr = fc.validate(t)
+	}
+	cands, others := discover(fc, t.typeName)
+	reached := map[*ast.FuncDecl]bool{}
+	var out []entry
+	pass := func(exported bool) {
+		for _, c := range cands {
+			if ast.IsExported(c.fd.Name.Name) != exported || (!exported && reached[c.fd]) {
+				continue
+			}
+			switch {
+			case verr != nil:
+				out = append(out, entry{name: c.fd.Name.Name, unknown: true, reason: verr.Error()})
+			case c.bad != "":
+				out = append(out, entry{name: c.fd.Name.Name, unknown: true,
+					reason: fmt.Sprintf("%s: %s", fc.fset.Position(c.fd.Pos()), c.bad)})
+			default:
+				out = append(out, analyseEntry(fc, t, c.fd, c.recv, reached))
+			}
+		}
+	}
+	pass(true)
+	pass(false)
+	for _, fd := range others { // the deep mode does not analyse goroutines started by constructors
+		if startsGoroutineOn(fc, fd, t.typeName) {
+			out = append(out, entry{name: fd.Name.Name + ".go1", unknown: true,
+				reason: fmt.Sprintf("%s: goroutine started on a %s outside its methods", fc.fset.Position(fd.Pos()), t.typeName)})
 		}
 	}
 	if verr != nil && len(out) == 0 {
@@ -1316,7 +1506,7 @@ func render(w *bytes.Buffer, t target, es []entry) {
 		for _, s := range e.secs {
 			var hs, as []string
 			for _, m := range s.held {
-				hs = append(hs, fmt.Sprintf("(%q, %s)", t.lockField, m))
+				hs = append(hs, fmt.Sprintf("(%q, %s)", t.lockCanon, m))
 			}
 			for _, x := range s.accs {
 				as = append(as, fmt.Sprintf("{| loc := %q; wr := %v |}", x.loc, x.wr))
